@@ -120,6 +120,8 @@ class SyncKill:
             if had_content and not vc:
                 chk.violation('no_content', 'sync killed at call %d (%s): no content copy decodes' % (k, mode), rep)
             for cmd in (('status',), ('diff',), ('check', '-a')):
+                if not had_content:
+                    break           # first sync ever, killed before its first save completed: there is nothing to load yet
                 rc_ = a.run(*cmd)
                 self.stats['content_loads'] += 1
                 if not loads_ok(rc_):
